@@ -311,6 +311,9 @@ class FileReader(FileBase):
             msg = "No file is open for reading"
             raise OSError(msg)
 
+        # Stream offsets need Python integers: a 32-bit numpy scalar cannot hold
+        # (or be added to) a position beyond 2 GiB
+        offset = int(offset)
         if whence == 0:
             self._seek_set(offset)
         elif whence == 1:
